@@ -444,6 +444,27 @@ func c03Catalogue() []sProgram {
 				}
 			}
 		}
+		// one connection reads a key twice while another changes it twice: the two
+		// answers must be explainable by one order of the four commands (a reader
+		// that is not held off by the writer's lock can see the second change in
+		// one tier and then the first in the other)
+		for _, ws := range [][2]wire.Kind{{wire.Set, wire.Set}, {wire.Set, wire.Delete}, {wire.Set, wire.Append}, {wire.Delete, wire.Set}} {
+			for ports := 0; ports < 4; ports++ {
+				for init := 0; init < 3; init++ {
+					p := sProgram{Multi: multi, Conc: 0, Threads: [][]sCmd{
+						{{Kind: wire.Get, Keys: []string{"k"}, Batch: ports&1 != 0}, {Kind: wire.Get, Keys: []string{"k"}, Batch: ports&1 != 0}},
+						{{Kind: ws[0], Keys: []string{"k"}, Batch: ports&2 != 0}, {Kind: ws[1], Keys: []string{"k"}, Batch: ports&2 != 0}},
+					}}
+					switch init {
+					case 1:
+						p.Preset = []string{"k"}
+					case 2:
+						p.L2Only = []string{"k"}
+					}
+					out = append(out, p)
+				}
+			}
+		}
 		// three connections on one key
 		for _, trio := range [][3]wire.Kind{{wire.Set, wire.Append, wire.Get}, {wire.Add, wire.Delete, wire.Get}, {wire.Append, wire.Append, wire.Gat}, {wire.Set, wire.Get, wire.Get}, {wire.Replace, wire.Delete, wire.Prepend}} {
 			out = append(out, sProgram{Multi: multi, Conc: 0, Preset: []string{"k"}, Threads: [][]sCmd{
@@ -537,6 +558,9 @@ func TestC03Random(t *testing.T) {
 			p.Orca = "l1only" // the locking wrapper around the single-tier orchestrator
 		}
 		keys := []string{"a", "b", "c"}
+		if rapid.IntRange(0, 2).Draw(t, "oneKey") == 0 {
+			keys = []string{"a"} // every command meets every other
+		}
 		for _, k := range keys {
 			switch rapid.IntRange(0, 2).Draw(t, "init") {
 			case 1:
